@@ -24,6 +24,12 @@ def claimed():
 
 
 CLAIMED = claimed()
+# properties whose check has been run green on /repo by the framework author (one id per line);
+# an area module may exist before its check is accepted
+_cl = VERIF / "tools" / "claimed.txt"
+if _cl.exists():
+    _ok = set(_cl.read_text().split())
+    CLAIMED = {k: v for k, v in CLAIMED.items() if k in _ok}
 
 REASON_PENDING = "check not built yet in this round; see DESIGN.md section 3 for the planned model and theorems"
 
